@@ -172,12 +172,22 @@ func (si BaseNodeSign) Verify(networkID NetworkID, b []byte) error {
 func CheckFactSignsBySuffrage(suf Suffrage, threshold Threshold, signs []NodeSign) error {
 	var sign float64
 
+	counted := map[string]struct{}{}
+
 	for i := range signs {
 		s := signs[i]
 
-		if suf.ExistsPublickey(s.Node(), s.Signer()) {
-			sign++
+		if !suf.ExistsPublickey(s.Node(), s.Signer()) {
+			continue
 		}
+
+		if _, found := counted[s.Node().String()]; found {
+			continue
+		}
+
+		counted[s.Node().String()] = struct{}{}
+
+		sign++
 	}
 
 	if (sign/float64(suf.Len()))*100 < threshold.Float64() {
